@@ -684,7 +684,7 @@ def check_metric_twins(ctx: Ctx):
         if name.startswith("__") or any(isinstance(d, ast.Name) and d.id == "property" for d in fe.node.decorator_list + fv.node.decorator_list):
             continue
         pe, pv_ = [p.name for p in fe.call_params], [p.name for p in fv.call_params]
-        if pe != pv_ or not pe or len(pe) > 3:
+        if pe != pv_ or not pe or len(pe) > 3 or any(p.kind in ("vararg", "kwarg") for p in fe.call_params + fv.call_params):
             continue
         # a copy that merely forwards to the other one agrees by construction (and is run anyway)
         construct = f"{ecls.name}.{name}~{vcls.name}.{name}"
@@ -694,7 +694,11 @@ def check_metric_twins(ctx: Ctx):
             for vals in product(grid, repeat=len(pe)):
                 res = []
                 for f_, so in ((fe, me), (fv, mv)):
-                    out = Interp(prog, f_, dict(zip(pe, vals)), self_obj=so).run()
+                    try:
+                        out = Interp(prog, f_, dict(zip(pe, vals)), self_obj=so).run()
+                    except (Undecided, AnchorMissing) as e:
+                        verdict, witness = None, {"why": f"{f_.qual} not evaluable: {e}"}
+                        break
                     if out.decisions or out.kind not in ("return", "raise") or isinstance(out.value, Unknown):
                         verdict = None
                         witness = {"why": f"{f_.qual} not evaluable on {[str(v) for v in vals]}: {out.kind} {out.value!r}"}
